@@ -52,6 +52,8 @@ Definition p_tail : parser tail :=
     '(raw, l) <- p_u (N.to_nat w) l ;;
     '(dsize, l) <- p_u (N.to_nat w) l ;;
     '(offs, l) <- p_many (N.to_nat cnt - 1) (p_u (N.to_nat w)) l ;;
+    (* every blob offset lies inside the cluster data (ClusterBuilder::parse) *)
+    if negb (forallb (fun o => o <=? dsize) offs) then Err EFormat else
     if (comp =? 0) && negb (raw =? dsize) then Err EFormat else
     Ok ({| t_comp := comp; t_raw := raw; t_dsize := dsize;
            t_offs := if cnt =? 0 then [dsize] else 0 :: offs ++ [dsize] |}, l).
@@ -109,6 +111,10 @@ Proof.
   2:{ apply Forall_forall. intros e He. apply In_removelast in He. unfold ends in He.
       apply ends_from_bound in He. lia. }
   cbn [bind].
+  replace (forallb (fun o => o <=? sumN lens) (removelast (ends lens))) with true.
+  2:{ symmetry. apply forallb_forall. intros e He. apply In_removelast in He. unfold ends in He.
+      apply ends_from_bound in He. apply N.leb_le. lia. }
+  cbn [negb].
   replace ((comp =? 0) && negb (raw =? sumN lens)) with false.
   2:{ symmetry. destruct (N.eqb_spec comp 0) as [E|E]; [|reflexivity]. rewrite (Hz E), N.eqb_refl. reflexivity. }
   replace (N.of_nat (length lens) =? 0) with false by (symmetry; apply N.eqb_neq; destruct lens; [congruence|cbn; lia]).
